@@ -138,9 +138,10 @@ def require(res, what):
 
 # ---------------------------------------------------------------- harness
 
-def build_harness(work, race=False):
-    """Compile the harness test binary against the current working tree of the repository."""
-    out = work.path("harness-race.test" if race else "harness.test")
+def build_harness(work, race=False, pkg="."):
+    """Compile a harness test binary (package pkg of /verif/harness) against the current working tree of the repository."""
+    tagname = pkg.strip("./").replace("/", "-") or "harness"
+    out = work.path(tagname + ("-race.test" if race else ".test"))
     env = goenv()
     modargs = []
     if os.path.realpath(REPO) != "/repo":
@@ -149,7 +150,7 @@ def build_harness(work, race=False):
         open(alt, "w").write(src)
         shutil.copy(os.path.join(HARNESS, "go.sum"), work.path("alt.sum"))
         modargs = ["-modfile=" + alt]
-    cmd = [GO, "test", "-c", "-tags", "verif"] + (["-race"] if race else []) + modargs + ["-o", out, "."]
+    cmd = [GO, "test", "-c", "-tags", "verif"] + (["-race"] if race else []) + modargs + ["-o", out, pkg if pkg.startswith(".") else "./" + pkg]
     p = subprocess.run(cmd, cwd=HARNESS, env=env, stdout=subprocess.PIPE, stderr=subprocess.STDOUT, text=True)
     if p.returncode != 0:
         sys.stderr.write(p.stdout[-4000:])
